@@ -109,7 +109,7 @@ class ReadWatch:
         builtins.open, io.open, pathlib.Path.read_text = self._open, self._ioopen, self._rt
 
 
-def run_doc(kinds, raw_enabled, file_ins, real=False):
+def run_doc(kinds, raw_enabled, file_ins, real=False, suppress=()):
     """Returns (doc, warnings, reads, text)."""
     with tempfile.TemporaryDirectory(prefix="symx_c20_") as d:
         for name, content in (("sentinel.md", "FILEPAYLOAD md *text*\n"), ("sentinel.rst", "FILEPAYLOAD rst\n"), ("sentinel.csv", "FILEPAYLOAD,csv\n"), ("sentinel.html", "<p>FILEPAYLOAD html</p>\n")):
@@ -121,7 +121,7 @@ def run_doc(kinds, raw_enabled, file_ins, real=False):
         text = "\n".join(lines) + "\n"
         # the standard-include root: make docutils' "<...>" form resolve inside d is not needed: absolute path is given
         with ReadWatch(d) as w:
-            doc, warn = CR.publish(text, {"raw_enabled": raw_enabled, "file_insertion_enabled": file_ins, "myst_enable_extensions": ["strikethrough"], "report_level": 2}, real=real,
+            doc, warn = CR.publish(text, {"raw_enabled": raw_enabled, "file_insertion_enabled": file_ins, "myst_enable_extensions": ["strikethrough"], "report_level": 2, "myst_suppress_warnings": list(suppress)}, real=real,
                                    source=os.path.join(d, "src.md"))
         return doc, warn, list(w.reads), text
 
@@ -166,7 +166,10 @@ def check(doc, warn, reads, kinds, raw_enabled, file_ins):
     return None
 
 
-def make(eng, k, pool):
+SUPPRESS = [[], ["myst"], ["myst.*", "docutils"]]
+
+
+def make(eng, k, pool, with_suppress=False):
     setup()
     c = CR.Choice(eng, width=31)
     state = {}
@@ -177,9 +180,10 @@ def make(eng, k, pool):
         kinds = [c.pick(pool) for _ in range(k)]
         raw_enabled = bool(c.choose(2))
         file_ins = bool(c.choose(2))
-        state.update(kinds=kinds, raw_enabled=raw_enabled, file_ins=file_ins)
+        sup = SUPPRESS[c.choose(len(SUPPRESS))] if with_suppress else []
+        state.update(kinds=kinds, raw_enabled=raw_enabled, file_ins=file_ins, suppress=sup)
         try:
-            doc, warn, reads, text = run_doc(kinds, raw_enabled, file_ins)
+            doc, warn, reads, text = run_doc(kinds, raw_enabled, file_ins, suppress=sup)
         except Exception as exc:  # noqa
             import traceback
 
@@ -199,7 +203,7 @@ def make(eng, k, pool):
 def families(tier, seed):
     q = tier == "quick"
     F = []
-    F.append(Family("single", make, "one construct from %r + %r x 4 setting combinations" % (RAW, FILES), args=dict(k=1, pool=RAW + FILES + ["para"]), nontrivial="refused", max_forks=100000))
+    F.append(Family("single", make, "one construct from %r + %r x 4 setting combinations x myst_suppress_warnings in %r (refusals must not depend on warning suppression)" % (RAW, FILES, SUPPRESS), args=dict(k=1, pool=RAW + FILES + ["para"], with_suppress=True), nontrivial="refused", max_forks=100000))
     F.append(Family("pairs-raw", make, "two constructs from the raw carriers x 4 settings (adjacent raw nodes)", args=dict(k=2, pool=RAW + ["para"]), nontrivial="refused", max_forks=100000))
     F.append(Family("pairs-files", make, "two constructs from the file readers x 4 settings", args=dict(k=2, pool=FILES + ["para"]), nontrivial="refused", max_forks=100000, required=not q))
     if not q:
@@ -211,7 +215,7 @@ def families(tier, seed):
 def replay(label, witness):
     kinds, raw_enabled, file_ins = witness["kinds"], witness["raw_enabled"], witness["file_ins"]
     try:
-        doc, warn, reads, text = run_doc(kinds, raw_enabled, file_ins, real=True)
+        doc, warn, reads, text = run_doc(kinds, raw_enabled, file_ins, real=True, suppress=witness.get("suppress", []))
     except Exception as e:  # noqa
         return ("C20/exception:%s" % type(e).__name__, "constructs %r raw_enabled=%s file_insertion=%s: %r" % (kinds, raw_enabled, file_ins, e))
     err = check(doc, warn, reads, kinds, raw_enabled, file_ins)
